@@ -17,11 +17,13 @@ class Ctx:
         self.notes = []
         self.controls = []
         self.floors = []
+        self.floor_failures = []
         self.assumptions = []
         self.trusted = []
         self.explanation = ""
         self.not_decided = []
         self.analysed = {}
+        self.outcomes = {}     # key -> bool, for rule instances evaluated through check()/fail(): premises of other properties' allow entries
         with open(KNOWN) as fh:
             k = json.load(fh)
         self.known = {e["key"]: e for e in k.get("findings", []) if e["property"] == pid}
@@ -35,6 +37,7 @@ class Ctx:
         """A rule instance that does not hold. key identifies the failing construct without line numbers."""
         self.obligations.append({"rule": rule, "instance": instance, "ok": False, "where": where, "detail": msg, "nontrivial": True})
         v = {"property": self.pid, "rule": rule, "instance": instance, "key": key, "message": msg, "where": where, "detail": detail}
+        self.outcomes[key] = False
         if key in self.known:
             self.known_hits.append((self.known[key], v))
         else:
@@ -43,6 +46,7 @@ class Ctx:
     def check(self, cond, rule, instance, key, msg, where=None, detail=None):
         if cond:
             self.ok(rule, instance, where, detail)
+            self.outcomes.setdefault(key, True)
         else:
             self.fail(rule, instance, key, msg, where, detail)
         return cond
@@ -50,8 +54,10 @@ class Ctx:
     def floor(self, what, got, expected_min):
         self.floors.append({"what": what, "got": got, "min": expected_min})
         if got < expected_min:
-            from facts import CheckerError
-            raise CheckerError(f"floor not met: {what}: found {got}, confirmed by hand {expected_min} — a rule would pass vacuously")
+            # decided at the end of the run: when rule instances already report violations, those are the verdict (exit 1) and the
+            # missing instances are listed with them; with no violation at all the check cannot vouch for the property (exit 2)
+            self.floor_failures.append(f"floor not met: {what}: found {got}, confirmed by hand {expected_min} — a rule would pass vacuously")
+        return got >= expected_min
 
     def control(self, name, fired):
         """Positive control: a rule that expects zero matches must fire on a fixture / synthetic instance."""
@@ -110,6 +116,7 @@ class Ctx:
                 "samples": samples[:40],
                 "rules": sorted(seen_rules),
                 "floors": self.floors,
+                "floor_failures": self.floor_failures,
                 "positive_controls": self.controls,
                 "analysed": (fb.stats() if fb else {}) | self.analysed,
                 "not_decided": self.not_decided,
@@ -127,5 +134,10 @@ class Ctx:
             json.dump(ev, fh, indent=1, default=str)
         for l in lines:
             print(l)
+        for ff in self.floor_failures:
+            print(f"FLOOR property={self.pid} {ff}")
+        if self.floor_failures and not self.violations:
+            print(f"CHECKER-ERROR property={self.pid}: {self.floor_failures[0]}")
+            return 2
         print(f"{self.pid}: {n_ok}/{n_obl} rule instances hold, {len(self.violations)} violation(s), {len(reported_known)} known finding(s) [{self.tier}, {ev['wall_s']}s]")
         return 1 if self.violations else 0
